@@ -132,9 +132,10 @@ Definition finish (dest_size : Z) (chunks : list bytes) : dres :=
   let out := concat (rev chunks) in
   if zlen out =? dest_size then DOk out else DErr.
 
-(* main loop of apply_delta (Python); chunks is the `out` list, newest first *)
+(* main loop of apply_delta (Python); chunks is the `out` list, newest first,
+   outlen is out_size: what the operations so far have asked for *)
 Fixpoint run_py (fuel : nat) (src : bytes) (src_size dest_size : Z)
-         (d : bytes) (chunks : list bytes) : dres :=
+         (d : bytes) (chunks : list bytes) (outlen : Z) : dres :=
   match fuel with
   | O => DErr
   | S f =>
@@ -149,11 +150,13 @@ Fixpoint run_py (fuel : nat) (src : bytes) (src_size dest_size : Z)
           if (off + sz >? src_size) || (sz >? dest_size)
           then (* break; then `index != delta_length` / dest size checks *)
                match r' with [] => finish dest_size chunks | _ => DErr end
-          else run_py f src src_size dest_size r' (slice src off sz :: chunks)
+          else if sz >? dest_size - outlen then DErr   (* the output would outgrow the declared size *)
+          else run_py f src src_size dest_size r' (slice src off sz :: chunks) (outlen + sz)
         end
       else if cmd =? 0 then DErr             (* Invalid opcode 0 *)
       else if zlen r <? cmd then DErr        (* truncated insert *)
-      else run_py f src src_size dest_size (zskipn cmd r) (zfirstn cmd r :: chunks)
+      else if cmd >? dest_size - outlen then DErr
+      else run_py f src src_size dest_size (zskipn cmd r) (zfirstn cmd r :: chunks) (outlen + cmd)
     end
   end.
 
@@ -165,7 +168,7 @@ Definition apply_py (src delta : bytes) : dres :=
     | None => DErr
     | Some (dest_size, d2) =>
       if src_size =? zlen src
-      then run_py (S (length d2)) src src_size dest_size d2 []
+      then run_py (S (length d2)) src src_size dest_size d2 [] 0
       else DErr
     end
   end.
@@ -173,8 +176,34 @@ Definition apply_py (src delta : bytes) : dres :=
 Definition declared_dest (delta : bytes) : option Z :=
   do (_, d1) <- hdr_py delta 0 0; do (n, _) <- hdr_py d1 0 0; Some n.
 
-(* bytes materialised by the Python loop before the final size check *)
-Fixpoint mat_py (fuel : nat) (src_size dest_size : Z) (d : bytes) : Z :=
+(* bytes the Python loop has materialised (sliced out of the base or the delta)
+   when it stops; outlen is what it had materialised before *)
+Fixpoint mat_py (fuel : nat) (src_size dest_size : Z) (d : bytes) (outlen : Z) : Z :=
+  match fuel with
+  | O => outlen
+  | S f =>
+    match d with
+    | [] => outlen
+    | cmd :: r =>
+      if 128 <=? cmd then
+        match parse_copy cmd r with
+        | None => outlen
+        | Some (off, sz0, r') =>
+          let sz := if sz0 =? 0 then 65536 else sz0 in
+          if (off + sz >? src_size) || (sz >? dest_size) then outlen
+          else if sz >? dest_size - outlen then outlen
+          else mat_py f src_size dest_size r' (outlen + sz)
+        end
+      else if cmd =? 0 then outlen
+      else if zlen r <? cmd then outlen
+      else if cmd >? dest_size - outlen then outlen
+      else mat_py f src_size dest_size (zskipn cmd r) (outlen + cmd)
+    end
+  end.
+
+(* the decoder as it was before: every copy is appended and the total is
+   compared with the declared size only after the last operation *)
+Fixpoint mat_py_late (fuel : nat) (src_size dest_size : Z) (d : bytes) : Z :=
   match fuel with
   | O => 0
   | S f =>
@@ -187,11 +216,11 @@ Fixpoint mat_py (fuel : nat) (src_size dest_size : Z) (d : bytes) : Z :=
         | Some (off, sz0, r') =>
           let sz := if sz0 =? 0 then 65536 else sz0 in
           if (off + sz >? src_size) || (sz >? dest_size) then 0
-          else sz + mat_py f src_size dest_size r'
+          else sz + mat_py_late f src_size dest_size r'
         end
       else if cmd =? 0 then 0
       else if zlen r <? cmd then 0
-      else cmd + mat_py f src_size dest_size (zskipn cmd r)
+      else cmd + mat_py_late f src_size dest_size (zskipn cmd r)
     end
   end.
 
@@ -332,7 +361,7 @@ Definition mat_py_top (src_len : Z) (delta : bytes) : Z :=
   | Some (s, d1) =>
     match hdr_py d1 0 0 with
     | None => 0
-    | Some (n, d2) => if s =? src_len then mat_py (S (length d2)) s n d2 else 0
+    | Some (n, d2) => if s =? src_len then mat_py (S (length d2)) s n d2 0 else 0
     end
   end.
 
